@@ -339,6 +339,98 @@ func c19Spaces(c *fw.Ctx) {
 			}
 		})
 
+	// ---------------------------------------------------------------- names with many labels
+	// Everything above has ≤ 4 labels. Index slices, stack buffers and counters inside the helpers change
+	// regime with the number of labels (Split starts with capacity 3 and grows), so: four chains of up to 127
+	// labels (the maximum: 127 one-octet labels are 255 wire octets), every suffix length 1..24, 31..34, 63..65
+	// and 127 of each, every ordered pair.
+	chainLabel := func(variant, i int) []byte { // i counts from the right
+		one := []byte{"abc"[i%3]}
+		switch variant {
+		case 1: // upper-case twin of chain 0
+			return []byte{"ABC"[i%3]}
+		case 2: // leaves chain 0 at the 5th label from the right
+			if i >= 4 {
+				return []byte{"xyz"[i%3]}
+			}
+		case 3: // leaves chain 0 at the 13th label from the right, with escape-bearing labels among the shared ones
+			if i >= 12 {
+				return []byte{"xyz"[i%3]}
+			}
+		}
+		return one
+	}
+	var deep []c19name
+	deepLens := []int{}
+	for n := 1; n <= 24; n++ {
+		deepLens = append(deepLens, n)
+	}
+	deepLens = append(deepLens, 31, 32, 33, 34, 63, 64, 65, 127)
+	for variant := 0; variant < 4; variant++ {
+		for _, n := range deepLens {
+			labels := make([][]byte, n)
+			for i := 0; i < n; i++ {
+				labels[n-1-i] = chainLabel(variant, i)
+			}
+			s, _, err := dns.UnpackDomainName(rn.Wire(labels), 0)
+			if err != nil {
+				panic(err)
+			}
+			deep = append(deep, c19name{labels, s})
+		}
+	}
+	// a fifth family of ≤ 40 labels whose labels need escapes (a dot, a backslash, a NUL inside the label)
+	for _, n := range []int{7, 8, 9, 10, 15, 16, 17, 18, 33, 40} {
+		labels := make([][]byte, n)
+		for i := 0; i < n; i++ {
+			labels[n-1-i] = [][]byte{[]byte("a"), []byte("a.b"), []byte(`\`), {0}, []byte("B")}[i%5]
+		}
+		s, _, err := dns.UnpackDomainName(rn.Wire(labels), 0)
+		if err != nil {
+			panic(err)
+		}
+		deep = append(deep, c19name{labels, s})
+	}
+	deep = append(deep, c19name{nil, "."})
+	c.Space("deep", fmt.Sprintf("%d names of 1..24, 31..34, 63..65 and 127 labels (four chains of one-octet labels sharing suffixes of 0, 4, 12 and all labels, one the upper-case twin, plus a chain of escape-bearing labels of 7..40 labels, plus the root): the unary helpers on each, CompareDomainName / IsSubDomain on all ordered pairs, TrimDomainName/AddOrigin with every name as origin of every longer name of its chain; non-trivial: more than 8 labels", len(deep)), true,
+		func(emit func(func(*fw.R))) {
+			for i := range deep {
+				a := deep[i]
+				emit(func(r *fw.R) {
+					if len(a.labels) > 8 {
+						r.Nontrivial()
+					}
+					if a.s != "." {
+						c19Unary(r, a.labels, a.s)
+						c19Unary(r, a.labels, a.s[:len(a.s)-1])
+					}
+					for j := range deep {
+						b := deep[j]
+						want := rn.CommonSuffix(a.labels, b.labels)
+						if got := dns.CompareDomainName(a.s, b.s); got != want {
+							r.Fail("CompareDomainName", "CompareDomainName(%q, %q) = %d, reference %d", a.s, b.s, got, want)
+						}
+						if got := dns.IsSubDomain(a.s, b.s); got != (want == len(a.labels)) {
+							r.Fail("IsSubDomain", "IsSubDomain(%q, %q) = %v, reference %v", a.s, b.s, got, want == len(a.labels))
+						}
+						// a as origin of b (b strictly below a): relative part and back
+						if want == len(a.labels) && len(b.labels) > len(a.labels) && a.s != "." {
+							relLabels := b.labels[:len(b.labels)-len(a.labels)]
+							t := dnsutil.TrimDomainName(b.s, a.s)
+							tp := rn.Parse(t)
+							if !tp.OK || tp.FQDN || !rn.Equal(tp.Labels, relLabels) {
+								r.Fail("TrimDomainName", "TrimDomainName(%q, %q) = %q, want the %d leading labels", b.s, a.s, t, len(relLabels))
+							} else if back := rn.Parse(dnsutil.AddOrigin(t, a.s)); !back.OK || !rn.EqualFold(back.Labels, b.labels) {
+								r.Fail("Add-after-Trim", "AddOrigin(TrimDomainName(%q, %q), …) = %q", b.s, a.s, dnsutil.AddOrigin(t, a.s))
+							}
+						}
+					}
+					r.Count("pairs", int64(len(deep)))
+					r.Sample(func() any { return a.s })
+				})
+			}
+		})
+
 	// dnsutil: relative names × origins
 	var rel []c19name
 	for i := 0; i < len(namesA) && len(rel) < 700; i += 5 {
